@@ -27,7 +27,7 @@ EXHAUSTIVE = {'quick': False, 'thorough': False}
 CASE_TIMEOUT = 30
 
 VARS = ['X', 'Y', 'Z', 'W', 'x']
-ATTRS = ['foo', 'bar', 'Xx', 'values', 'strict', 'size']
+ATTRS = ['foo', 'bar', 'Xx', 'values', 'strict', 'size', 'copy']       # 'copy': a method name (an attribute of the class, no series)
 SPANS = [[10, 11, 12], [0, 1, 2, 3], [5], [], [7, 7, 8], [2000, 2001, 2002, 2003, 2004], [3, 1, 2]]
 
 
@@ -221,8 +221,10 @@ def rand_case(rng, kind, max_ops):
             if n > 0 and rng.random() < 0.5:
                 case['extra'] = 2 * n
         rows = len(names)
+    # models also carry the solution-tracking series `status` (<U1) and `iterations` (int64): variables like any other
+    pool = None if kind == 'vc' or rng.random() < 0.6 else VARS + ['status', 'iterations']
     for _ in range(rng.randint(1, max_ops)):
-        op = rand_op(rng, span, kind, rows)
+        op = rand_op(rng, span, kind, rows, pool=pool)
         if op[0] == 'addvar':
             rows += 1
         case['ops'].append(op)
@@ -258,6 +260,19 @@ def gen(rng, tier):
             ['setattr', 'X', ['L', [['L', [S(['i', 1]), S(['i', 2])]] for _ in span]]],
             ['setattr', 'X', ['A', [len(span)], ['U', 1], [['s', 'a']] * len(span)]],
             ['setitem', ['l', 'attributes', 10], S(['s', 'zz'])]]})
+    # NumPy's order of checks for a sequence into a label slice: nesting deeper than the series -> ValueError before any cast;
+    # a flat sequence -> element casts (OverflowError / TypeError / ValueError) before the length test
+    ninf, none = S(['ninf']), S(['none'])
+    cases.append({'kind': 'vc', 'span': [10, 11, 12], 'strict': False, 'ops': [
+        ['addvar', 'Y', S(['i', 1]), 'i'],
+        ['setitem', ['sl', 'Y', 10, 10, None], ['L', [['L', [ninf]]]]],
+        ['setitem', ['sl', 'Y', 10, 10, None], ['L', [ninf, S(['i', 1]), S(['i', 2])]]],
+        ['setitem', ['sl', 'Y', 10, 10, None], ['L', [none, S(['i', 1]), S(['i', 2])]]],
+        ['setitem', ['sl', 'Y', 10, 11, None], ['L', [['L', [S(['i', 1]), S(['i', 2])]]]]],
+        ['setitem', ['sl', 'Y', 10, 11, None], ['L', [S(['i', 1]), S(['i', 2]), S(['i', 3])]]],
+        ['setitem', ['sl', 'Y', 12, 10, -1], ['L', [S(['i', 7]), S(['i', 8]), S(['i', 9])]]],
+        ['setattr', 'strict', S(['b', 1])], ['setattr', 'values', S(['i', 5])], ['setattr', 'strict', S(['b', 0])],
+        ['setattr', 'values', S(['i', 5])], ['setattr', 'strict', S(['b', 1])], ['setattr', 'values', S(['i', 6])]]})
     alpha = reduced_alphabet()
     depth = 3
     seqs = list(itertools.product(range(len(alpha)), repeat=depth))
